@@ -59,8 +59,8 @@ def lean_type(t) -> str:
         return "List Nat"
     if t == "ilist":
         return "List Int"
-    if t == "bits":
-        return "List Bool"
+    if t == "str":
+        return "List Char"
     if t == "none":
         return "Unit"
     if isinstance(t, tuple) and t[0] == "tuple":
@@ -249,7 +249,7 @@ class Translator:
             return e.val()
         if e.typ == "int":
             return f"({e.val()} != 0)"
-        if e.typ in ("bytes", "ilist", "nats", "bits"):
+        if e.typ in ("bytes", "ilist", "nats", "str"):
             return f"(!({e.val()}).isEmpty)"
         self.f.bad(n, f"truth value of {e.typ}")
 
@@ -299,7 +299,7 @@ class Translator:
         a = self.expr(n.left, env)
         b = self.expr(n.right, env)
         op = type(n.op).__name__
-        seq = ("bytes", "ilist", "bits")
+        seq = ("bytes", "ilist", "str")
         if op == "Add" and a.typ in seq and a.typ == b.typ:
             return Ex(f"({a.val()} ++ {b.val()})", a.typ)
         if a.typ in ("int", "bool") and b.typ in ("int", "bool"):
@@ -364,7 +364,7 @@ class Translator:
             sym = {"Lt": "<", "LtE": "≤", "Gt": ">", "GtE": "≥"}.get(o)
             if sym:
                 return f"(decide ({x} {sym} {y}))"
-        elif a.typ == b.typ and a.typ in ("bytes", "ilist", "bits") or (
+        elif a.typ == b.typ and a.typ in ("bytes", "ilist", "str") or (
                 isinstance(a.typ, tuple) and a.typ == b.typ):
             if o == "Eq":
                 return f"({a.val()} == {b.val()})"
@@ -400,6 +400,10 @@ class Translator:
         xs = [self.expr(e, env) for e in n.elts]
         return Ex("[" + ", ".join(self.int_of(x, n) for x in xs) + "]", "ilist")
 
+    def e_ListComp(self, n, env):
+        lst, lam = self.comprehension(n, env, "int")
+        return Ex(f"Py.listGen {lst} ({lam})", "ilist", True)
+
     def opt(self, n, env):
         if n is None:
             return "none"
@@ -409,7 +413,7 @@ class Translator:
         v = self.expr(n.value, env)
         sl = n.slice
         if isinstance(sl, ast.Slice):
-            if v.typ not in ("bytes", "ilist", "nats", "bits"):
+            if v.typ not in ("bytes", "ilist", "nats", "str"):
                 self.f.bad(n, f"slice of {v.typ}")
             if sl.step is not None:
                 if (sl.lower is None and sl.upper is None and isinstance(sl.step, ast.UnaryOp)
@@ -515,7 +519,7 @@ class Translator:
             name = fn.id
             if name == "len" and len(n.args) == 1 and not n.keywords:
                 x = self.expr(n.args[0], env)
-                if x.typ in ("bytes", "ilist", "nats", "bits"):
+                if x.typ in ("bytes", "ilist", "nats", "str"):
                     return Ex(f"(Py.len {x.val()})", "int")
             if name == "bytes" and len(n.args) == 1 and not n.keywords:
                 a = n.args[0]
@@ -545,6 +549,13 @@ class Translator:
                 x = self.expr(n.args[0], env)
                 if x.typ in ("int", "bool"):
                     return Ex(self.int_of(x, n), "int")
+            if name == "bin" and len(n.args) == 1 and not n.keywords:
+                return Ex(f"(Py.bin {self.int_of(self.expr(n.args[0], env), n)})", "str")
+            if name == "int" and len(n.args) == 2 and not n.keywords and isinstance(n.args[1], ast.Constant) \
+                    and n.args[1].value == 2 and type(n.args[1].value) is int:
+                x = self.expr(n.args[0], env)
+                if x.typ == "str":
+                    return Ex(f"Py.intOfStr2 {x.val()}", "int", True)
             if name == "bool" and len(n.args) == 1 and not n.keywords:
                 return Ex(self.truthy(self.expr(n.args[0], env), n), "bool")
             self.f.bad(n, f"call of `{name}`")
@@ -567,6 +578,15 @@ class Translator:
             if fn.attr == "to_bytes":
                 kw = self.kwargs(n, ["length", "byteorder", "signed"], env)
                 return self.to_bytes(n, fn.value, kw, env)
+            # math.ceil(a / b), b a positive int literal: the float quotient is computed first (Py.ceilDiv says when that is exact)
+            if (isinstance(fn.value, ast.Name) and fn.value.id == "math" and fn.attr == "ceil" and "math" not in env
+                    and len(n.args) == 1 and not n.keywords and isinstance(n.args[0], ast.BinOp)
+                    and isinstance(n.args[0].op, ast.Div)
+                    and self.f.fn.__globals__.get("math") is __import__("math")):
+                a = self.expr(n.args[0].left, env)
+                b = n.args[0].right
+                if a.typ == "int" and isinstance(b, ast.Constant) and type(b.value) is int and b.value > 0:
+                    return Ex(f"Py.ceilDiv {a.val()} {b.value}", "int", True)
             callee = self.u.resolve_call(self.f, fn)
             if callee is not None:
                 names = [p[0] for p in callee.params]
